@@ -237,7 +237,9 @@ class Protocol:
                     )
             raise notify_msg
 
-        if msg_id not in Message.CODE.MESSAGES:
+        # MESSAGES also lists the internal NOP code (252), which no peer may send and which has no
+        # decoder (nor a 'receive-nop' counter: the KeyError closed the session without a NOTIFICATION)
+        if msg_id not in Message.CODE.MESSAGES or msg_id not in Message.registered_message:
             # RFC 4271 6.1: an unrecognised Type field is Bad Message Type (subcode 3)
             raise Notify(1, 3, 'unknown message type %d' % msg_id)
 
